@@ -8,13 +8,13 @@ git checkout -q -- . ; git clean -fdq src
 run() { cargo test --offline -- --test-threads=4 2>&1 | grep -E "^test .* (FAILED|failed)|^test result" ; }
 filt() { grep -v "beacon::encode_decode_cmd" ; }
 git apply _seeded/$ab.patch.diff || { echo "REJECTED: patch does not apply"; exit 1; }
-r1=$(run); f1=$(echo "$r1" | grep "^test .*FAILED" | filt)
+r1=$(run); f1=$(echo "$r1" | grep "^test .* \.\.\. FAILED" | filt)
 echo "[suite with change] $(echo "$r1" | grep 'test result' | head -1) failures(non-flaky): ${f1:-none}"
 git apply _seeded/$ab.demo.diff || { echo "REJECTED: demo does not apply"; git checkout -q -- .; git clean -fdq src; exit 1; }
-r2=$(run); f2=$(echo "$r2" | grep "^test .*FAILED" | filt)
+r2=$(run); f2=$(echo "$r2" | grep "^test .* \.\.\. FAILED" | filt)
 echo "[demo with change] failures: ${f2:-none}"
 git apply -R _seeded/$ab.patch.diff || { echo "REJECTED: cannot revert patch"; git checkout -q -- .; git clean -fdq src; exit 1; }
-r3=$(run); f3=$(echo "$r3" | grep "^test .*FAILED" | filt)
+r3=$(run); f3=$(echo "$r3" | grep "^test .* \.\.\. FAILED" | filt)
 echo "[demo without change] $(echo "$r3" | grep 'test result' | head -1) failures(non-flaky): ${f3:-none}"
 git checkout -q -- . ; git clean -fdq src
 if [ -z "$f1" ] && [ -n "$f2" ] && [ -z "$f3" ]; then echo "CONFIRMED $wt $ab"; else echo "REJECTED $wt $ab"; fi
